@@ -47,7 +47,9 @@ func TestVerifE5Concurrent(t *testing.T) {
 	}
 	stamps := make([]*vfE5Stamp, workers)
 	counts := make([]map[string]int, workers)
-	var stop int32
+	var stop, stopScan int32 // stopScan: the timeout scans and the empty / delete operations end 40 ms before everything
+	// else, so that what the last deliveries and answers leave behind (e.g. a heap entry whose message was FINished) is
+	// still there when the quiescent oracles look
 	var wg sync.WaitGroup
 	var nextClient int64 = 100
 	do := func(w int, name string, f func()) {
@@ -122,7 +124,11 @@ func TestVerifE5Concurrent(t *testing.T) {
 					}
 					do(w, "unsub", func() { ch.RemoveClient(k) })
 				default: // admin + scanner
-					switch r.Intn(10) {
+					op := r.Intn(10)
+					if atomic.LoadInt32(&stopScan) != 0 && op < 4 {
+						op = 6 // the last 40 ms: no empty / delete either (they would wipe what the oracles should see)
+					}
+					switch op {
 					case 0:
 						do(w, "emptychan", func() {
 							if tp, err := n.GetExistingTopic(tn); err == nil {
@@ -172,6 +178,9 @@ func TestVerifE5Concurrent(t *testing.T) {
 					case 6:
 						do(w, "stats", func() { n.GetStats("", "", true) })
 					default:
+						if atomic.LoadInt32(&stopScan) != 0 {
+							break
+						}
 						do(w, "scan", func() {
 							for _, ch := range n.channels() {
 								now := time.Now().UnixNano()
@@ -189,6 +198,9 @@ func TestVerifE5Concurrent(t *testing.T) {
 	blocked := ""
 	for time.Now().Before(end) && blocked == "" {
 		time.Sleep(20 * time.Millisecond)
+		if time.Until(end) < 40*time.Millisecond {
+			atomic.StoreInt32(&stopScan, 1)
+		}
 		now := time.Now().UnixNano()
 		for w := range stamps {
 			if s := atomic.LoadInt64(&stamps[w].since); s != 0 && time.Duration(now-s) > deadline {
